@@ -88,9 +88,11 @@ def run_case(spec, work):
     if r['exception'] is not None:
         sig, last = oracles.exception_signature(r['traceback'],
                                                 r.get('stderr'))
-        return {'violations': [], 'counters': {'runs_raised': 1},
-                'inconclusive': f'mapping raised ({sig}): {last}',
-                'features': None, 'nontrivial': False}
+        return {'violations': [{
+                    'sig': f'C15:mapping-raised-on-valid-input:{sig}',
+                    'msg': f'mapping raised: {last}'}],
+                'counters': {'runs_raised': 1},
+                'features': ['raised'], 'nontrivial': True}
     js = r['json']
     results = js['results']
     model = w.model
